@@ -12,20 +12,26 @@ from . import common
 from . import c16
 
 PROP = "C17"
-MODULES = ["PdsVerif.Props.StatsValidTie", "PdsVerif.Props.C17"]
+MODULES = ["PdsVerif.Props.StatsValidTie", "PdsVerif.Props.StatsSaveTie", "PdsVerif.Props.C17"]
 MODEL_MODULES = ["PdsVerif.Model.Standardize", "PdsVerif.Model.StandardizeDrv"]
 REQUIRED = [
     "PdsVerif.C17." + n
     for n in """valid_of_accumulated reload_npy reload_raw reload_npz reload_raw_of_accumulated resave_ok
     npz_keeps_others_iff_overwrite_flag npz_keeps_others_iff save_empty reload_same_apply firstUnused_isSome
     validOld_false_of_negative_sum old_resave_fails lookup_upsert_self lookup_upsert_ne""".split()
-] + ["PdsVerif.StatsValidTie.valid_eq_gen", "PdsVerif.StatsValidTie.rows_of_flat"]
+] + ["PdsVerif.StatsValidTie.valid_eq_gen", "PdsVerif.StatsValidTie.rows_of_flat"] + [
+    "PdsVerif.StatsSaveTie." + n for n in ["baseArchive_eq_gen", "firstUnused_eq_gen", "saveNpz_compressed_eq_gen", "save_kind_npy",
+                                           "shape_facts"]]
 
 
 def translate(repo):
-    """validity predicate of raw statistics (Standardize._sanitize_stats) -> Generated/StatsValid.lean (Props/StatsValidTie.lean)"""
-    from .translate import statsvalid
-    return statsvalid.generate(repo)
+    """validity predicate of raw statistics (Standardize._sanitize_stats) -> Generated/StatsValid.lean (Props/StatsValidTie.lean);
+    decision logic of Standardize.save (suffix dispatch, load-existing test, key pattern and start, compress test, statement
+    order) -> Generated/StatsSave.lean (Props/StatsSaveTie.lean)"""
+    from .translate import statssave, statsvalid
+    out = dict(statsvalid.generate(repo))
+    out.update(statssave.generate(repo))
+    return out
 
 
 RULE = (
@@ -62,13 +68,15 @@ LEVEL_TEXT = (
     "predicate (no sign condition), save-then-load is the identity for npy / npz (any key, compress, overwrite, previous "
     "archive; arr_k search proved to terminate within its fuel) / raw, saving again succeeds, other npz entries kept iff "
     "overwrite, empty save -> ValueError, reloaded apply equal; old predicate / old npz branch proved to fail on the witnesses. "
-    "Tie: operation-sequence correspondence on real files."
+    "Tie: translation (statsvalid.py: validity predicate of raw statistics; statssave.py: save's suffix dispatch, load-existing "
+    "test, key pattern / start, compress test, statement order -> Props/StatsValidTie, Props/StatsSaveTie) and "
+    "operation-sequence correspondence on real files."
 )
 LEVEL_NOTE = (
     "Trusted: Lean kernel, std axioms, NumPy file containers as modelled, key-string translation. Needs fix/C17-stats "
     "(2 commits); on the unrepaired tree the check reports the two defects as violations."
 )
-TECHNIQUE = "Lean 4 proof over an executable save/load model + operation-sequence correspondence on real files"
+TECHNIQUE = "Lean 4 proof over an executable save/load model + translator tie (validity predicate and save decision logic regenerated from post.py) + operation-sequence correspondence on real files"
 
 # raw targets include names whose ending only LOOKS like a NumPy suffix: the documented dispatch (and the reader's) is
 # case-sensitive, so "stats.NPY" / "stats.Npz" are raw binary files
